@@ -957,7 +957,7 @@ class Runner:
                 continue
             for i in bad:
                 msg = [l for l in err.splitlines() if 'error' in l or '^' in l]
-                rejected[i] = (msg[-1] if msg else err.strip().splitlines()[-1] if err.strip() else 'rejected')[:200]
+                rejected[i] = (msg[-1] if msg else err.strip().splitlines()[-1] if err.strip() else 'rejected').strip()[:200]
         return {}, rejected
 
     def asm_of(self, cases, sizes, crej):
@@ -1010,7 +1010,7 @@ class Runner:
                                     'expected': 'accepted (gcc -std=c11 -pedantic-errors accepts it)', 'got': str(crej[k]).strip()}, c, KNOWN_UNION2)
                 elif rc == 0 or (parse_ok and ({'range-designator', 'flexible-member'} & set(c['features']))):
                     # (range designators and flexible array members are GNU, but the property names them: gcc -std=gnu11 is the judge)
-                    corr.violations.append({'what': 'a valid C11 initializer is rejected', 'input': inp, 'expected': 'accepted (gcc accepts it)',
+                    corr.violations.append({'what': 'a valid initializer is rejected', 'input': inp, 'expected': 'accepted (gcc accepts it)',
                                             'got': str(crej[k])})
                 else:
                     corr.count('chibicc_rejects_gnu_extension')
